@@ -2,3 +2,8 @@ CONSTANTS MaxRows = 2
           Shape = "key"
 INIT Init
 NEXT NextGen
+INVARIANT LeftJoinDecomposition
+INVARIANT Symmetric
+INVARIANT ClassesOK
+INVARIANT RowsOK
+INVARIANT SlotInvisible
